@@ -362,7 +362,7 @@ def r_boundary(model):
         cells.append(a5.lonlat_to_cell(p, r))
     opts = []
     for closed in ("omitted", True, False):
-        for seg in (1, "omitted", None, "auto", 2, 3, 5, 7, 16):
+        for seg in (1, "omitted", None, "auto", 2, 3, 5, 6, 7, 10, 13, 16):
             o = {}
             if closed != "omitted":
                 o["closed_ring"] = closed
